@@ -326,7 +326,20 @@ func init() {
 			}
 			return x.bigSet(a[0], mkInt(new(big.Int).Exp(b.big, e.big, mm)), "Exp")
 		}
-		return x.bigSet(a[0], x.intUF("exp", b, e, m), "Exp")
+		// y < 0 with a modulus asks for a modular inverse, which may not exist
+		// (then z is unchanged and nil is returned)
+		if !m.isConst() || m.big.Sign() != 0 {
+			if x.ps.decide(mkAnd(intCmp(OpILt, e, mkIntI(0)), mkNot(mkEq(m, mkIntI(0)))), "big-exp-negative") {
+				if !x.ps.decide(x.ps.freshBool("big-exp-invertible"), "big-exp-invertible") {
+					return nilPtr
+				}
+			}
+		}
+		r := x.intUF("exp", b, e, m)
+		// contract of modular exponentiation: 0 <= result < |m| when m != 0
+		am := mkIAbs(m)
+		x.ps.assume(mkOr(mkEq(m, mkIntI(0)), mkAnd(intCmp(OpILe, mkIntI(0), r), intCmp(OpILt, r, am))))
+		return x.bigSet(a[0], r, "Exp")
 	}
 	I[B+"ModInverse"] = func(x *Exec, c *frame, fn *ssa.Function, a []Value) Value {
 		g, n := x.bigGet(a[1], "ModInverse"), x.bigGet(a[2], "ModInverse")
